@@ -1,9 +1,93 @@
 (* C06 -- Every page has exactly one owner; no leak, no early reuse.
-   This file contains only statements; every proof is `exact <lemma>`. *)
+   This file contains only statements; every proof is `exact <lemma>`.
+   Model: coq/Txn/Own.v (page-ownership state machine over abstract page ids; the header of that file
+   lists what is abstracted).  `Inv` is the invariant O1..O4 + id bookkeeping; `oracle_ok` are the
+   side conditions on the oracle choices (page sets of the trees after a mutation), checked on every run. *)
 From Coq Require Import List NArith.
-From RV Require Import Txn.PSet Txn.Own Txn.OwnP.
+From RV Require Import Txn.PSet Txn.Own Txn.OwnP Txn.OwnThmP.
 Import ListNotations.
+
+Theorem c06_inv_init : Inv init.
+Proof. exact inv_init. Qed.
+
+(* every step, every admissible oracle choice *)
+Theorem c06_inv_step : forall s o, Inv s -> oracle_ok s o = true -> Inv (step s o).
+Proof. exact inv_step. Qed.
+
+(* every history (induction on its length), from any state satisfying the invariant *)
+Theorem c06_inv_reach : forall h s, Inv s -> admissible s h -> Inv (run h s).
+Proof. exact inv_reach. Qed.
+
+Theorem c06_inv_reach_init : forall h, admissible init h -> Inv (run h init).
+Proof. exact inv_reach_init. Qed.
+
+(* O1: at a transaction boundary every allocated page has exactly one owner among the current trees,
+   DATA_FREED, SYSTEM_FREED and the unpersisted freed records; every other page is free *)
+Theorem c06_no_leak : forall s, Inv s -> inw s = false ->
+  NoDup (alloc s) /\ NoDup (owned_c s) /\ (forall p, In p (alloc s) <-> In p (owned_c s)).
+Proof. exact no_leak. Qed.
+
+Theorem c06_no_leak_in_txn : forall s, Inv s ->
+  NoDup (owned_c s ++ wasc s) /\ (forall p, In p (alloc s) <-> In p (owned_c s ++ wasc s)) /\
+  NoDup (owned_w s) /\ (forall p, In p (alloc s) <-> In p (owned_w s)).
+Proof. exact no_leak_in_txn. Qed.
+
+(* O2: pages of the durable commit, of every live reader and of every savepoint are allocated *)
+Theorem c06_pinned_allocated : forall s, Inv s -> incl (pinned s) (alloc s).
+Proof. exact pinned_allocated. Qed.
+
+Theorem c06_no_early_free : forall h s, Inv s -> admissible s h -> incl (pinned (run h s)) (alloc (run h s)).
+Proof. exact no_early_free. Qed.
+
+(* ... also at the points inside a commit where pages have been returned but the header not switched *)
+Theorem c06_no_early_free_commit_dur : forall D' Sd So qr pcf s, Inv s ->
+  ok_commit_dur D' Sd So qr pcf s = true ->
+  incl (pinned s) (alloc (c_drain (c_store_dfreed (c_adopt (mut_data D' (c_restored s)))))) /\
+  incl (pinned s) (alloc (commit_dur_pre D' Sd qr s)).
+Proof. exact no_early_free_commit_dur. Qed.
+
+Theorem c06_no_early_free_commit_nd : forall D' Sd s, Inv s -> ok_commit_nd D' Sd s = true ->
+  incl (pinned s) (alloc (n_reclaim (n_store_ufreed (mut_data D' (c_restored s))))) /\
+  incl (pinned s) (alloc (commit_nd_pre D' Sd s)).
+Proof. exact no_early_free_commit_nd. Qed.
+
+(* pages handed out by the allocator are never pinned ones (nothing pinned is rewritten) *)
+Theorem c06_fresh_not_pinned_data : forall D' s, Inv s -> ok_data D' s = true ->
+  disjoint (minus D' (wdata s)) (pinned s).
+Proof. exact fresh_not_pinned_data. Qed.
+
+Theorem c06_fresh_not_pinned_sys : forall S' s, Inv s -> ok_sys S' s = true ->
+  disjoint (minus S' (wsys s)) (pinned s).
+Proof. exact fresh_not_pinned_sys. Qed.
 
 (* the boolean checker run on every observed state of the implementation is sound *)
 Theorem c06_own_check_sound : forall s, own_checkb s = true -> InvObs s.
 Proof. exact own_check_sound_obs. Qed.
+
+(* ---- non-vacuity: a concrete admissible history reaching a state where a savepoint keeps pages
+   alive through DATA_FREED entries, with a quick-repair SYSTEM_FREED entry, after durable and
+   non-durable commits, a reader begun and dropped ---- *)
+Definition c06_example_history : list op :=
+  [ OBeginWrite; OMutData [1;2;3]; OCommitDur [1;2;3] [10;11] [] false true;
+    OBeginRead 7%N;
+    OBeginWrite; OMutData [1;2;4;5]; OCommitDur [1;2;4;5] [10;12] [] false true;
+    OBeginWrite; OSpCreate 9%N false; OMutData [1;6]; OCommitNd [1;6] [10;12;13];
+    ODropPin 7%N;
+    OBeginWrite; OMutData [1;8]; OCommitDur [1;8] [14;15] [16] true true ]%positive.
+
+Example c06_nonvacuous_history :
+  admissible init c06_example_history /\
+  own_checkb (run c06_example_history init) = true /\
+  pins (run c06_example_history init) = [mkpin 9 3 [1;2;4;5]%positive false] /\
+  dfreed (run c06_example_history init) = [(4%N, [2;4;5]%positive); (5%N, [6]%positive)] /\
+  sfreed (run c06_example_history init) = [(5%N, [10;12;13]%positive)] /\
+  inw (run c06_example_history init) = false.
+Proof. vm_compute. repeat split; reflexivity. Qed.
+
+(* the hypotheses of the commit theorems are satisfiable on a non-trivial state: a durable commit
+   with live pins and pending freed entries *)
+Example c06_nonvacuous_commit :
+  let s := run [ OBeginWrite; OMutData [1;2;3]; OCommitDur [1;2;3] [10;11] [] false true;
+                 OBeginRead 7%N; OBeginWrite; OMutData [1;2;4;5] ]%positive init in
+  ok_commit_dur [1;2;4;5]%positive [10;12]%positive [] false true s = true /\ pinned s <> [] /\ wdfr s = [3%positive].
+Proof. vm_compute. repeat split; try reflexivity. discriminate. Qed.
